@@ -19,7 +19,7 @@ FamL  == Good(CallL(ConsF \cup {PAny, PNil, Ref("x")} \cup A1r)
                \cup { Or2(c, s) : c \in CallL(ConsQ), s \in Leaf \cup { Bind("x", PAny), PBin(Ref("x"), Ref("y")) } }
                \cup { Not(c) : c \in CallL(ConsF) })
 
-FullPats  == SetToSeq(FamA \cup FamS \cup FamT \cup FamLq \cup FamL \cup FamD)
+FullPats  == SetToSeq(FamA \cup FamS \cup FamT \cup FamLq \cup FamL \cup FamD \cup FamO)
 FullTrees == SetToSeq(TreesFull)
 SpecFull == GenInit(FullPats, FullTrees) /\ [][MatchCall(FullPats, FullTrees)]_vars
 =============================================================================
